@@ -4,7 +4,7 @@ import itertools
 from core import hx, exc_kind, safe_check
 
 PROPS = ('GambitV.Props.C07', 'GambitV.C07')
-TIE = [('GambitV.Tie.Kmers', 'GambitV.Tie.Kmers'), ('GambitV.Tie.PyKmerWrappers', 'GambitV.Tie.Py')]
+TIE = [('GambitV.Tie.Kmers', 'GambitV.Tie.Kmers'), ('GambitV.Tie.PyKmerWrappers', 'GambitV.Tie.Py'), ('GambitV.Tie.PyBindKmers', 'GambitV.Tie.Py')]
 RULE = ('streams: all k-mers over ACGT for k<=6 (quick) / 8 (thorough) [exhaustive]; all byte strings of length <=2 '
         'over 0..255 [exhaustive]; all-A/all-T/single-T for every k<=40; random mixed-case k-mers with and without '
         'one foreign byte, k<=40; random indices < 2^64 with k<=32 (and k up to 40 for the decoder); '
